@@ -1,10 +1,10 @@
 #!/bin/bash
 # usage: k.sh <engine-dir> <pkg|-> <target-name> <timeout> harness...   (runs harnesses in parallel, prints a summary)
 dir=$1; pkg=$2; tgt=$3; to=$4; shift 4
-cd $dir
+cd $dir; ulimit -v 25000000
 parg=""; [ "$pkg" != "-" ] && parg="-p $pkg"
 for h in "$@"; do
- ( timeout $to env CARGO_NET_OFFLINE=true cargo kani $parg --target-dir /verif/.cache/kani/$tgt -Z stubbing $KARGS --harness $h $( [[ "$h" == *::* ]] && echo --exact ) > /tmp/k_${h##*::}.log 2>&1; rc=$?
+ ( timeout $to env CARGO_NET_OFFLINE=true cargo kani $parg --target-dir /verif/.cache/kani/$tgt -Z stubbing $KARGS --harness $h $( [[ "$h" == *::* ]] && echo --exact ) $KTAIL > /tmp/k_${h##*::}.log 2>&1; rc=$?
    echo "== $h rc=$rc $(grep -h 'Verification Time' /tmp/k_${h##*::}.log) $(grep -h 'VERIFICATION' /tmp/k_${h##*::}.log) $(grep -h 'Runtime Symex' /tmp/k_${h##*::}.log | head -1) $(grep -h 'cover properties' /tmp/k_${h##*::}.log)"
    grep -h "^error\|Solver ran out" /tmp/k_${h##*::}.log | head -5
    grep -h -A2 "Failed Checks" /tmp/k_${h##*::}.log | cut -c1-220 | head -12 ) &
